@@ -1,5 +1,6 @@
 """C08 Conditional assembly selects exactly the lines of the taken branches."""
 from harness import asmcheck
+from checks import tracepart
 
 WHAT = ['status', 'image']
 KINDS = {'ifdef', 'ifndef', 'if', 'ifnz', 'elif', 'else'}
@@ -29,7 +30,12 @@ def run(chk):
                 'reading of the statement). The real code is compared on accept/reject (dangling directives, redefinition) '
                 'and on the image: which marker bytes, label / constant / symbol values and zone placements are present. '
                 'Non-trivial = contains a conditional opener, #elif or #else; distinct by program text.')
+    chk.rule += (' Code -> specification: seeded random multi-file programs (nested conditionals, definitions, muting, zones, includes, all label '
+                 'classes) and the repository programs are assembled with the reading-phase hooks on; every line event must be '
+                 'AsmCore!ReadStep (Trace_Read.tla): compiled flag, mute flag, current zone, condition stack depth and branch state, and '
+                 'label scope identity; corrupted traces must be rejected.')
     chk.assumptions = ['an evaluated condition over a valueless symbol, and a bare #if over an undefined symbol, are not generated; S == v over an undefined symbol is false (documentation and code agree)',
                        'lines inside unselected branches are well-formed', 'unterminated blocks at end of file are not generated']
     chk.exhaustive = True
     asmcheck.run_instances(chk, instances(chk.tier), WHAT, KINDS)
+    tracepart.run_read_traces(chk)
